@@ -7,7 +7,7 @@ WRAPS = ["socket", "accept", "close", "fopen", "fclose", "opendir", "closedir", 
          "shm_open", "shm_unlink", "dlopen", "dlclose", "poll", "getsockname", "getaddrinfo", "freeaddrinfo", "bind", "listen", "connect", "setsockopt", "getsockopt", "getpeername", "ftruncate", "fcntl", "pthread_create"]
 # kind -> can the creation fail in a controlled way
 KINDS = {"tree": False, "hashtable": False, "list": False, "ini": True, "hash": True, "error": False, "dir": True, "sockaddr": True, "tcp": True,
-         "tcp_timeout": False, "sock_intr": False, "from_fd": True, "accept_fail": False, "shm_close_intr": False, "sock_close_intr": False, "bind_used": False, "udp": False, "sem": True, "sem2": False, "shm": True, "shm_same": False, "shm_smaller": False,
+         "tcp_timeout": False, "sock_intr": False, "from_fd": True, "accept_fail": False, "shm_close_intr": False, "sock_close_intr": False, "bind_used": False, "udp": False, "sem": True, "sem2": False, "shm": True, "shm_same": False, "shm_adopt": False, "shm_smaller": False,
          "shmbuf": True, "shmbuf_small": False, "thread": False, "thread_named": False, "thread_detached": False, "thread_foreign": False, "tlskey_race": False, "locks": False, "loader": True, "profiler": False, "string": False}
 
 
